@@ -64,9 +64,9 @@ CONFIG['C04'] = dict(unit='iter', allowed=ITER_ALLOWED, assumptions=ITER_ASSUME,
 CONFIG['C08'] = dict(unit='iter', allowed=ITER_ALLOWED, assumptions=ITER_ASSUME, samples=ITER_SAMPLES,
     stubs=['Showdown::new (contracts/showdown_new.vc, proved in unit SHOWDOWN / C03)'],
     kinds=r'overflow|precondition|decreases|termination|recursion',
-    search=[['iter-search', '{seed}', '{n}', '{marker}', 'c08']], search_n={'quick': 240, 'thorough': 2400})
+    search=[['iter-search', '{seed}', '{n}', '{marker}', 'c08'], ['c08big-search']], search_n={'quick': 240, 'thorough': 2400})
 
-CONFIG['C16'] = dict(unit='scopes',
+C16_CFG = dict(unit='scopes',
     allowed=[DERIVE_ALLOWED, r'^external_body pub fn raw_cut'],
     assumptions=[
         'raw_cut (the f32 sqrt/floor/%/ceil formula) is external_body with NO postcondition: the tiling theorem holds for any pair of u8 it returns; floats are not modelled at all',
@@ -130,6 +130,10 @@ MULTI['C11'] = dict(
 
 # failing-input searches of properties whose plugins live elsewhere (used by vcheck's fallback)
 EXTRA_SEARCH = {
+    # first-principles oracle (best of the 21 five-card sub-hands, closed-form numbering) over every rank multiset in several
+    # suitings plus random hands; used only when the EVAL unit cannot be re-established on the current code
+    'C01': dict(search=[['eval-search', '{seed}', '{n}', 'c01']], search_n={'quick': 200000, 'thorough': 3000000}),
+    'C07': dict(search=[['eval-search', '{seed}', '{n}', 'c07']], search_n={'quick': 200000, 'thorough': 3000000}),
     'C13': dict(search=[['card-check', 'c13']]),
     'C14': dict(search=[['card-check', 'c14']]),
 }
@@ -171,7 +175,7 @@ def _k_card(name, names, bounded=None):
 STR_BOUND_Q = 'strings: every ASCII string of <= 9 bytes, and every such string with the two-byte character "é" at any offset (quick); <= 12 bytes (thorough). Longer inputs differ only in the digit run of the weight.'
 TOKEN_ASSUME = [
     'Kani harnesses run on a scratch copy in which every `Regex::new(r"...")` call site of the CURRENT source is replaced by a DFA generated from that literal (extract/dfa.py; cross-checked against Python\'s re on ~778k strings per run) -- regex::Regex itself is not verified',
-    'parse_probability is stubbed by an OVER-approximation of a correctly rounded f32::from_str on the weight grammar [01](\\.[0-9]+)?: "0"/"0.00" -> 0.0; "0.<nonzero>" -> any f32 in [0,1] (symbolic, fixed per run, since the parser reads the weight twice); "1"/"1.00" -> 1.0; "1.<nonzero within 7 digits>" -> any f32 in [1+EPSILON, 2); "1.<nonzero later>" -> 1.0 or 1+EPSILON. Correct rounding of f32::from_str is assumed (documented behaviour of std); parse_probability\'s own 7 lines are not under the harness',
+    'parse_probability is stubbed by an OVER-approximation of a correctly rounded f32::from_str on the weight grammar [01](\\.[0-9]+)?: "0"/"0.00" -> 0.0; "0.<nonzero>" -> any f32 in [0,1] (symbolic, fixed per run, since the parser reads the weight twice); "1"/"1.00" -> 1.0; "1.<nonzero within 7 digits>" -> any f32 in [1+EPSILON, 2); "1.<nonzero later>" -> 1.0 or 1+EPSILON. Correct rounding of f32::from_str is assumed (documented behaviour of std); parse_probability\'s own 7 lines (strip the colon, f32::from_str, default 1.0) are not under the harness but pinned by a fingerprint: a change voids the abstraction and hands the decision to the failing-input search',
     'strings are built with from_utf8_unchecked from bytes that are valid UTF-8 by construction (std\'s UTF-8 validation of symbolic bytes is intractable for CBMC); arbitrary multi-byte content is represented by one two-byte character at every offset',
     'token_wf in the Kani harness and in the Verus unit are hand-written mirrors of each other',
     DERIVE,
@@ -288,3 +292,30 @@ MULTI['C06'] = dict(
     ],
     search=[['c06-search', '{seed}', '{n}']], search_n={'quick': 5000, 'thorough': 50000})
 
+
+# ---------------------------------------------------------------------------------------------------
+# C16: the splitter tiles (unit SCOPES) -- and, for its last clause "so the per-thread results add up to the
+# single-threaded result", the scope / into_iter / next contracts of unit ITER (C04)
+MULTI['C16'] = dict(
+    parts=[_v('scopes', C16_CFG['allowed']), _v('iter', ITER_ALLOWED)],
+    assumptions=C16_CFG['assumptions'][:3] + [
+        'last clause of the property: a tiling scope list makes the per-thread results add up because an evaluator scoped to [from, to) yields exactly the showdowns of the unscoped run at positions from <= p < to (C04: contracts of scope(), into_iter() and next() in unit ITER, composed over a whole run by the verified client verif_run); the sum over the scopes itself is computed by the example\'s tally loop, which is not under contract',
+    ] + ITER_ASSUME[:3],
+    samples=C16_CFG['samples'] + [{'obligation': 'verif_run postcondition (unit ITER)', 'clause': 'run_is_enumeration(e, it0, out, cs): the output is, in order and exactly once, every legal deal with from <= position < to'}],
+    no_witness_undecided='the ITER contracts pin the whole enumeration (C02, C04, C08); for this property only a worker count whose tiling is wrong or whose per-scope results do not add up counts',
+    search=[['scopes-search', '{seed}', '{n}'], ['c16sum-search', '{seed}', '80']], search_n={'quick': 20000, 'thorough': 60000})
+
+# the text layer of range printing is assumed, not verified; its pieces are pinned (see multi.check_pins)
+TEXT_PINS = [
+    ('src/hand_range/hand_range.rs', 'tail Display for HandRange :: fmt :: let mut res = f.write_str(', '6a5236b8f7e8cbd5'),
+    ('src/hand_range/hand_range_token.rs', 'Display for HandRangeToken', '0f8836ffe9b0ad0b'),
+    ('src/hand_range/rank_pair.rs', 'Display for RankPair', '19dd650066bafba3'),
+    ('src/hand_range/card_pair.rs', 'Display for CardPair', '3fdfeee1a0da67a0'),
+    ('src/card/card.rs', 'Display for Card', 'b1c24ad2c74df883'),
+    ('src/card/rank.rs', 'Display for Rank', 'f4545eb6859365c1'),
+    ('src/card/suit.rs', 'Display for Suit', '056b6068ec329622'),
+]
+MULTI['C06']['pins'] = TEXT_PINS
+MULTI['C17']['pins'] = TEXT_PINS
+for _p in ('C06', 'C17'):
+    MULTI[_p]['assumptions'] = MULTI[_p]['assumptions'] + ['the assumed text layer is PINNED: the tail of Display for HandRange (from `let mut res = f.write_str(` on) and the Display impls of HandRangeToken, RankPair, CardPair, Card, Rank, Suit carry fingerprints; a change voids the assumption, the run becomes undecided and the failing-input search (format / parse / compare on the real crate) decides']
